@@ -3,13 +3,14 @@
    the value is within one step (+2^-20, see [within_one]) of the exact real-number transfer function [exact_position] /
    [exact_scaled] computed in rational arithmetic; an exact value at an end of the range (0, 127, 16383) or at the rest value
    (63 = floor(127/2) for a unidirectional controller on a signed/centred axis, 8192 for pitch bend) is transmitted exactly;
-   the message goes to the right controller (the side the stick is on, for a pair) or is a pitch bend.
+   the message goes to the right controller (for a pair: one of its two controllers, and for a non-zero value the one of the
+   side the stick is on - with value 0 both controllers are 0 at the receiver) or is a pitch bend.
    [c06_monotone] : over all pairs of positions the (signed) transmitted value is monotone in the raw position (reversed by flip).
    [axis_msgs g raw] is what the model (bit-exact float64, Model/AnalogF.v) transmits. *)
 From Coq Require Import List NArith ZArith Bool.
 From Coq Require Import Reals.
 From HIDI Require Import Base.AList Model.Device Model.AnalogF Model.AnalogSpec Proofs.AnalogGrid Proofs.AnalogProofs Proofs.AnalogEndstop
-  Proofs.AnalogGeneral Proofs.AnalogGeneral2.
+  Proofs.AnalogGeneral Proofs.AnalogGeneral2 Proofs.AnalogGeneral3 Proofs.AnalogGeneral4.
 Import ListNotations.
 
 (* Every raw value of the 8-bit axes [0,255], [-128,127], [-127,127] and of a hat [-1,1], for each of the 20 deadzones of
@@ -190,3 +191,72 @@ Theorem C06_general_tx_monotone : forall k (flip : bool) mn mx dzc dz r1 r2,
   else (transmitted_signed k flip mn mx dzc dz r1 <= transmitted_signed k flip mn mx dzc dz r2)%Z.
 Proof. exact c06_general_monotone. Qed.
 Print Assumptions C06_general_tx_monotone.
+
+(* ==== The general theorems about the DEVICE MODEL's messages [axis_msgs] and the run-time monitor [c06_event_ok] / [c06_monotone]
+   themselves (the general versions of C06_grid_value / C06_grid_monotone), for every configuration of
+     [cfg_dom g] : axis_dom (q_mn g) (q_mx g) (q_dzc g) /\ dz_dom (q_dz g) /\ q_cc g < 128 /\ q_ccneg g < 128.
+   Proved by reading the monitor's rational arithmetic over the real numbers (Q2R), the bounds above, and - for the clauses
+   that demand exact values (0, 63, 127, 8192, 16383 at the ends of the range and at rest) - by showing that the exact
+   function hits these values only at the end stops / inside the deadzone / at the exact half of an unsigned axis, where the
+   float code computes exactly +-1.0 / +-0.0 / 0.5 (x / x = 1; a quotient that equals a dyadic rational is representable;
+   halving commutes with rounding). *)
+
+(* Every position of every configuration of the domain satisfies the monitor; the one hypothesis concerns a pitch-bend axis
+   with deadzone_at_center only: where the exact function is inside the deadzone, the float code is too ([pb_centre_agree]:
+   q_kind g = KPB -> q_dzc g = true -> |exact normalised position| <= dz -> |computed normalised position| <= dz) ... *)
+Theorem C06_general_event_ok : forall g raw,
+  cfg_dom g -> (q_mn g <= raw <= q_mx g)%Z -> pb_centre_agree g raw ->
+  c06_event_ok g raw (axis_msgs g raw) = true.
+Proof. exact event_ok_general. Qed.
+Print Assumptions C06_general_event_ok.
+
+(* ... so there is no hypothesis for controllers (unidirectional or pair) and for pitch bend without deadzone_at_center ... *)
+Theorem C06_general_event_ok_plain : forall g raw,
+  cfg_dom g -> (q_mn g <= raw <= q_mx g)%Z -> q_kind g <> KPB \/ q_dzc g = false ->
+  c06_event_ok g raw (axis_msgs g raw) = true.
+Proof. exact event_ok_plain. Qed.
+Print Assumptions C06_general_event_ok_plain.
+
+(* ... and with deadzone_at_center it holds whenever the exact normalised position [wR] = 2 * raw / max - 1 is outside the
+   deadzone or at least 5 * 2^-53 inside it *)
+Theorem C06_general_pb_centre_margin : forall g raw,
+  cfg_dom g -> (q_mn g <= raw <= q_mx g)%Z ->
+  (B.B2R (q_dz g) < Rabs (wR g raw) \/ Rabs (wR g raw) <= B.B2R (q_dz g) - 5 * u)%R -> pb_centre_agree g raw.
+Proof. exact pb_centre_agree_margin. Qed.
+Print Assumptions C06_general_pb_centre_margin.
+
+(* The hypothesis is needed: axis 0..12, deadzone_at_center, flipped, deadzone 0.16666666666666669 (the float just above 1/6),
+   raw = 7: exact normalised position 1/6, inside the deadzone (rest: 8192); the float code computes 2 * rnd(7/12) - 1 =
+   0.16666666666666674, outside, and transmits 8191 = (lsb 127, msb 63).  The configuration is in the domain. *)
+Example C06_pb_centre_needed :
+  c06_event_ok corner_pb 7 (axis_msgs corner_pb 7) = false /\ axis_msgs corner_pb 7 = [[224; 127; 63]]%N.
+Proof. exact pb_centre_needed. Qed.
+
+(* Why the monitor's side clause is conditional on a non-zero value: at these positions of these configurations of the domain
+   the float code and the exact function decide differently at the deadzone edge (a signed axis, flipped or not; a centred
+   axis) resp. at the half threshold (an unsigned pair); the strict clause "the controller of the exact side" fails, the
+   transmitted value is 0 and the other controller is zeroed in the same step: (strict clause, monitor, messages) *)
+Example C06_side_immaterial_at_zero :
+  corner_check corner_signed (-999) = (false, true, [[176; 20; 0]; [176; 21; 0]]%N) /\
+  corner_check corner_signed_flip 999 = (false, true, [[176; 20; 0]; [176; 21; 0]]%N) /\
+  corner_check corner_centred 3 = (false, true, [[176; 20; 0]; [176; 21; 0]]%N) /\
+  corner_check corner_half 128 = (false, true, [[176; 20; 0]; [176; 21; 0]]%N).
+Proof. exact side_immaterial_at_zero. Qed.
+
+Example C06_corners_in_domain :
+  cfg_dom corner_signed /\ cfg_dom corner_signed_flip /\ cfg_dom corner_centred /\ cfg_dom corner_half /\ cfg_dom corner_pb.
+Proof. exact corners_in_domain. Qed.
+
+(* every message of an axis event is well-formed MIDI (the controller VALUE byte off the grid: C05) *)
+Theorem C06_general_wf : forall g raw,
+  cfg_dom g -> (q_mn g <= raw <= q_mx g)%Z -> forallb wf_msgb (axis_msgs g raw) = true.
+Proof. exact axis_msgs_wf. Qed.
+Print Assumptions C06_general_wf.
+
+(* the monotonicity monitor holds on ANY list of positions of the range, in any order; for a pair the two controllers must be
+   different (the monitor tells the sides apart by the controller number) *)
+Theorem C06_general_monotone_msgs : forall g l,
+  cfg_dom g -> (q_kind g <> KCCbidi \/ q_cc g <> q_ccneg g) -> Forall (fun r => (q_mn g <= r <= q_mx g)%Z) l ->
+  c06_monotone g (map (fun r => (r, axis_msgs g r)) l) = true.
+Proof. exact axis_msgs_monotone. Qed.
+Print Assumptions C06_general_monotone_msgs.
